@@ -282,10 +282,12 @@ class AsyncTunnelHTTPConnection(AsyncConnectionInterface):
                 )
                 # The 'sni_hostname' extension is for the TLS connection to the
                 # origin inside the tunnel, not for the one to the proxy itself.
+                # The 'target' extension is the target of the request inside
+                # the tunnel, not of the CONNECT request.
                 connect_extensions = {
                     key: value
                     for key, value in request.extensions.items()
-                    if key != "sni_hostname"
+                    if key not in ("sni_hostname", "target")
                 }
                 connect_request = Request(
                     method=b"CONNECT",
